@@ -48,78 +48,293 @@ func mGenReq(r *rand.Rand, svc string) *gReq {
 	return q
 }
 
-// ---------- the dump ----------
+// ---------- reading the allocator's memory ----------
+//
+// The seven bookkeeping maps are private state: they are read through
+// reflection (FieldByName on the Allocator, MapRange/Len/String/Int/Bool/Field on
+// the unexported values, never Interface()) and normalised to their
+// representation-independent content:
+//   - a set is the keys whose value is `true`, or all keys when the value type is
+//     struct{} (or the elements of a slice of strings);
+//   - an inner map that is absent or empty is no entry;
+//   - a sharing key is (sharing, backend) whether stored by pointer or by value,
+//     a nil pointer is no entry;
+//   - counts are ints whatever the integer type.
+// A field that is absent or has another shape is skipped (nil map below, stat
+// whitebox_skipped:<field>); the history is then still checked on the remaining
+// maps and on the exported behaviour.
 
-type mDump struct {
-	Alloc map[string]mAlloc           `json:"allocated"`
-	Key   map[string][2]string        `json:"sharingKeyForIP"`
-	Ports map[string]map[string]string `json:"portsInUse"`
-	Svcs  map[string][]string         `json:"servicesOnIP"`
-	Use   map[string]map[string]int   `json:"poolIPsInUse"`
-	Use4  map[string]map[string]int   `json:"poolIPV4InUse"`
-	Use6  map[string]map[string]int   `json:"poolIPV6InUse"`
-}
 type mAlloc struct {
-	Pool  string   `json:"pool"`
-	IPs   []string `json:"ips"`
-	Ports []string `json:"ports"`
-	Key   [2]string `json:"key"`
+	Pool  string
+	IPs   []string
+	Ports []Port
+	Key   [2]string
 }
 
-func mCopyCounts(m map[string]map[string]int) map[string]map[string]int {
+type mMaps struct {
+	Alloc   map[string]mAlloc
+	Key     map[string][2]string
+	Ports   map[string]map[Port]string
+	Svcs    map[string][]string
+	Use     map[string]map[string]int
+	Use4    map[string]map[string]int
+	Use6    map[string]map[string]int
+	Skipped []string
+}
+
+var mFields = []string{"allocated", "sharingKeyForIP", "portsInUse", "servicesOnIP", "poolIPsInUse", "poolIPV4InUse", "poolIPV6InUse"}
+
+type mShape struct{ what string }
+
+func mBad(what string) { panic(mShape{what}) }
+
+func mStr(v reflect.Value) string {
+	if v.Kind() != reflect.String {
+		mBad("not a string")
+	}
+	return v.String()
+}
+func mInt(v reflect.Value) int {
+	switch v.Kind() {
+	case reflect.Int, reflect.Int8, reflect.Int16, reflect.Int32, reflect.Int64:
+		return int(v.Int())
+	case reflect.Uint, reflect.Uint8, reflect.Uint16, reflect.Uint32, reflect.Uint64:
+		return int(v.Uint())
+	}
+	mBad("not an integer")
+	return 0
+}
+
+// follows pointers / interfaces; ok=false for nil
+func mDeref(v reflect.Value) (reflect.Value, bool) {
+	for v.Kind() == reflect.Ptr || v.Kind() == reflect.Interface {
+		if v.IsNil() {
+			return v, false
+		}
+		v = v.Elem()
+	}
+	return v, true
+}
+func mMapOf(v reflect.Value) (reflect.Value, bool) {
+	v, ok := mDeref(v)
+	if !ok {
+		return v, false
+	}
+	if v.Kind() != reflect.Map {
+		mBad("not a map")
+	}
+	return v, true
+}
+func mFieldOf(v reflect.Value, name string) reflect.Value {
+	if v.Kind() != reflect.Struct {
+		mBad("not a struct")
+	}
+	f := v.FieldByName(name)
+	if !f.IsValid() {
+		mBad("no field " + name)
+	}
+	return f
+}
+func mPortOf(v reflect.Value) Port {
+	v, ok := mDeref(v)
+	if !ok {
+		mBad("nil port")
+	}
+	return Port{Proto: mStr(mFieldOf(v, "Proto")), Port: mInt(mFieldOf(v, "Port"))}
+}
+func mKeyOf(v reflect.Value) ([2]string, bool) {
+	v, ok := mDeref(v)
+	if !ok {
+		return [2]string{}, false
+	}
+	return [2]string{mStr(mFieldOf(v, "sharing")), mStr(mFieldOf(v, "backend"))}, true
+}
+
+func mReadCounts(v reflect.Value) map[string]map[string]int {
 	out := map[string]map[string]int{}
-	for p, im := range m {
-		if len(im) == 0 {
+	m, ok := mMapOf(v)
+	if !ok {
+		return out
+	}
+	for it := m.MapRange(); it.Next(); {
+		inner, ok := mMapOf(it.Value())
+		if !ok || inner.Len() == 0 {
 			continue
 		}
-		out[p] = map[string]int{}
-		for ip, c := range im {
-			out[p][ip] = c
+		im := map[string]int{}
+		for jt := inner.MapRange(); jt.Next(); {
+			im[mStr(jt.Key())] = mInt(jt.Value())
 		}
+		out[mStr(it.Key())] = im
 	}
 	return out
 }
 
-// the actual maps, with empty inner maps dropped (human-readable form, also the
-// value compared with the rebuild)
-func mSnapshot(a *Allocator) mDump {
-	d := mDump{Alloc: map[string]mAlloc{}, Key: map[string][2]string{}, Ports: map[string]map[string]string{}, Svcs: map[string][]string{}}
-	for s, al := range a.allocated {
-		ma := mAlloc{Pool: al.pool, IPs: gIPStrs(al.ips), Key: [2]string{al.sharing, al.backend}}
-		for _, p := range al.ports {
-			ma.Ports = append(ma.Ports, p.String())
-		}
-		d.Alloc[s] = ma
+func mReadSets(v reflect.Value) map[string][]string {
+	out := map[string][]string{}
+	m, ok := mMapOf(v)
+	if !ok {
+		return out
 	}
-	for ip, k := range a.sharingKeyForIP {
-		if k != nil {
-			d.Key[ip] = [2]string{k.sharing, k.backend}
-		}
-	}
-	for ip, pm := range a.portsInUse {
-		if len(pm) == 0 {
+	for it := m.MapRange(); it.Next(); {
+		var l []string
+		inner, ok := mDeref(it.Value())
+		if !ok {
 			continue
 		}
-		d.Ports[ip] = map[string]string{}
-		for p, s := range pm {
-			d.Ports[ip][p.String()] = s
-		}
-	}
-	for ip, sm := range a.servicesOnIP {
-		var l []string
-		for s, on := range sm {
-			if on {
-				l = append(l, s)
+		switch inner.Kind() {
+		case reflect.Map:
+			for jt := inner.MapRange(); jt.Next(); {
+				val := jt.Value()
+				switch {
+				case val.Kind() == reflect.Bool:
+					if val.Bool() {
+						l = append(l, mStr(jt.Key()))
+					}
+				case val.Kind() == reflect.Struct && val.NumField() == 0:
+					l = append(l, mStr(jt.Key()))
+				default:
+					mBad("set value neither bool nor struct{}")
+				}
 			}
+		case reflect.Slice, reflect.Array:
+			for i := 0; i < inner.Len(); i++ {
+				l = append(l, mStr(inner.Index(i)))
+			}
+		default:
+			mBad("not a set")
 		}
 		if len(l) == 0 {
 			continue
 		}
 		sort.Strings(l)
-		d.Svcs[ip] = l
+		out[mStr(it.Key())] = l
 	}
-	d.Use, d.Use4, d.Use6 = mCopyCounts(a.poolIPsInUse), mCopyCounts(a.poolIPV4InUse), mCopyCounts(a.poolIPV6InUse)
+	return out
+}
+
+func mReadKeys(v reflect.Value) map[string][2]string {
+	out := map[string][2]string{}
+	m, ok := mMapOf(v)
+	if !ok {
+		return out
+	}
+	for it := m.MapRange(); it.Next(); {
+		if k, ok := mKeyOf(it.Value()); ok {
+			out[mStr(it.Key())] = k
+		}
+	}
+	return out
+}
+
+func mReadPorts(v reflect.Value) map[string]map[Port]string {
+	out := map[string]map[Port]string{}
+	m, ok := mMapOf(v)
+	if !ok {
+		return out
+	}
+	for it := m.MapRange(); it.Next(); {
+		inner, ok := mMapOf(it.Value())
+		if !ok || inner.Len() == 0 {
+			continue
+		}
+		pm := map[Port]string{}
+		for jt := inner.MapRange(); jt.Next(); {
+			pm[mPortOf(jt.Key())] = mStr(jt.Value())
+		}
+		out[mStr(it.Key())] = pm
+	}
+	return out
+}
+
+func mReadAlloc(v reflect.Value) map[string]mAlloc {
+	out := map[string]mAlloc{}
+	m, ok := mMapOf(v)
+	if !ok {
+		return out
+	}
+	for it := m.MapRange(); it.Next(); {
+		al, ok := mDeref(it.Value())
+		if !ok {
+			continue
+		}
+		ma := mAlloc{Pool: mStr(mFieldOf(al, "pool"))}
+		ips := mFieldOf(al, "ips")
+		if ips.Kind() != reflect.Slice {
+			mBad("ips not a slice")
+		}
+		for i := 0; i < ips.Len(); i++ {
+			b := ips.Index(i)
+			if b.Kind() != reflect.Slice {
+				mBad("ip not a byte slice")
+			}
+			raw := make([]byte, b.Len())
+			for j := range raw {
+				raw[j] = byte(mInt(b.Index(j)))
+			}
+			ma.IPs = append(ma.IPs, net.IP(raw).String())
+		}
+		ports := mFieldOf(al, "ports")
+		if ports.Kind() != reflect.Slice {
+			mBad("ports not a slice")
+		}
+		for i := 0; i < ports.Len(); i++ {
+			ma.Ports = append(ma.Ports, mPortOf(ports.Index(i)))
+		}
+		k, ok := mKeyOf(al) // sharing / backend are promoted through the embedded key
+		if !ok {
+			mBad("no key")
+		}
+		ma.Key = k
+		out[mStr(it.Key())] = ma
+	}
+	return out
+}
+
+func mSnapshot(a *Allocator) mMaps {
+	var d mMaps
+	rv := reflect.ValueOf(a).Elem()
+	read := func(name string, f func(v reflect.Value)) {
+		defer func() {
+			if recover() != nil {
+				d.Skipped = append(d.Skipped, name)
+			}
+		}()
+		v := rv.FieldByName(name)
+		if !v.IsValid() {
+			mBad("absent")
+		}
+		f(v)
+	}
+	read("allocated", func(v reflect.Value) { d.Alloc = mReadAlloc(v) })
+	read("sharingKeyForIP", func(v reflect.Value) { d.Key = mReadKeys(v) })
+	read("portsInUse", func(v reflect.Value) { d.Ports = mReadPorts(v) })
+	read("servicesOnIP", func(v reflect.Value) { d.Svcs = mReadSets(v) })
+	read("poolIPsInUse", func(v reflect.Value) { d.Use = mReadCounts(v) })
+	read("poolIPV4InUse", func(v reflect.Value) { d.Use4 = mReadCounts(v) })
+	read("poolIPV6InUse", func(v reflect.Value) { d.Use6 = mReadCounts(v) })
 	return d
+}
+
+// readable form for replays
+func (d mMaps) human() map[string]any {
+	ports := map[string]map[string]string{}
+	for ip, pm := range d.Ports {
+		ports[ip] = map[string]string{}
+		for p, s := range pm {
+			ports[ip][p.String()] = s
+		}
+	}
+	al := map[string]any{}
+	for s, x := range d.Alloc {
+		var ps []string
+		for _, p := range x.Ports {
+			ps = append(ps, p.String())
+		}
+		al[s] = map[string]any{"pool": x.Pool, "ips": x.IPs, "ports": ps, "key": x.Key}
+	}
+	return map[string]any{"allocated": al, "sharingKeyForIP": d.Key, "portsInUse": ports, "servicesOnIP": d.Svcs,
+		"poolIPsInUse": d.Use, "poolIPV4InUse": d.Use4, "poolIPV6InUse": d.Use6, "whitebox_skipped": d.Skipped}
 }
 
 func mSortedKeys[V any](m map[string]V) []string {
@@ -131,6 +346,13 @@ func mSortedKeys[V any](m map[string]V) []string {
 	return ks
 }
 
+func mOpt(present bool, term string) string {
+	if !present {
+		return cNone
+	}
+	return cSome(term)
+}
+
 func mCountsTerm(m map[string]map[string]int) string {
 	var l []string
 	for _, p := range mSortedKeys(m) {
@@ -140,26 +362,43 @@ func mCountsTerm(m map[string]map[string]int) string {
 		}
 		l = append(l, cPair(cNi(gNum(gN.pool, p)), cList(il)))
 	}
-	return cList(l)
+	return mOpt(m != nil, cList(l))
 }
 
-// the Coq term of the dump: built from the Go maps themselves (typed values),
-// including inner maps that are present but empty
-func mDumpTerm(a *Allocator, counters, probes []string) string {
-	var al []string
-	for _, s := range mSortedKeys(a.allocated) {
-		x := a.allocated[s]
-		al = append(al, cPair(cNi(gNum(gN.svc, s)), cCtor("Build_alloc", cNi(gNum(gN.pool, x.pool)), cIPs(x.ips), cPorts(x.ports), cKey(x.sharing, x.backend))))
-	}
-	var kl []string
-	for _, ip := range mSortedKeys(a.sharingKeyForIP) {
-		if k := a.sharingKeyForIP[ip]; k != nil {
-			kl = append(kl, cPair(cIP(net.ParseIP(ip)), cKey(k.sharing, k.backend)))
+// exported view: Pool() / IPs() of every service of the universe
+type mHolding struct {
+	Pool string
+	IPs  []string
+}
+
+func mExported(a *Allocator, universe []string) map[string]mHolding {
+	out := map[string]mHolding{}
+	for _, s := range universe {
+		if p := a.Pool(s); p != "" {
+			out[s] = mHolding{Pool: p, IPs: gIPStrs(a.IPs(s))}
 		}
 	}
+	return out
+}
+
+// the Coq term of the dump
+func mDumpTerm(d mMaps, bb map[string]mHolding, counters []string) string {
+	var bl []string
+	for _, s := range mSortedKeys(bb) {
+		bl = append(bl, cPair(cNi(gNum(gN.svc, s)), cPair(cNi(gNum(gN.pool, bb[s].Pool)), cIPstrs(bb[s].IPs))))
+	}
+	var al []string
+	for _, s := range mSortedKeys(d.Alloc) {
+		x := d.Alloc[s]
+		al = append(al, cPair(cNi(gNum(gN.svc, s)), cCtor("Build_alloc", cNi(gNum(gN.pool, x.Pool)), cIPstrs(x.IPs), cPorts(x.Ports), cKey(x.Key[0], x.Key[1]))))
+	}
+	var kl []string
+	for _, ip := range mSortedKeys(d.Key) {
+		kl = append(kl, cPair(cIP(net.ParseIP(ip)), cKey(d.Key[ip][0], d.Key[ip][1])))
+	}
 	var pl []string
-	for _, ip := range mSortedKeys(a.portsInUse) {
-		pm := a.portsInUse[ip]
+	for _, ip := range mSortedKeys(d.Ports) {
+		pm := d.Ports[ip]
 		var ports []Port
 		for p := range pm {
 			ports = append(ports, p)
@@ -172,57 +411,53 @@ func mDumpTerm(a *Allocator, counters, probes []string) string {
 		pl = append(pl, cPair(cIP(net.ParseIP(ip)), cList(il)))
 	}
 	var sl []string
-	for _, ip := range mSortedKeys(a.servicesOnIP) {
+	for _, ip := range mSortedKeys(d.Svcs) {
 		var il []string
-		for _, s := range mSortedKeys(a.servicesOnIP[ip]) {
-			if a.servicesOnIP[ip][s] {
-				il = append(il, cNi(gNum(gN.svc, s)))
-			}
+		for _, s := range d.Svcs[ip] {
+			il = append(il, cNi(gNum(gN.svc, s)))
 		}
 		sl = append(sl, cPair(cIP(net.ParseIP(ip)), cList(il)))
 	}
-	return cCtor("Build_mdump", cList(al), cList(kl), cList(pl), cList(sl),
-		mCountsTerm(a.poolIPsInUse), mCountsTerm(a.poolIPV4InUse), mCountsTerm(a.poolIPV6InUse), cList(counters), cList(probes))
+	return cCtor("Build_mdump", cList(bl), mOpt(d.Alloc != nil, cList(al)), mOpt(d.Key != nil, cList(kl)), mOpt(d.Ports != nil, cList(pl)),
+		mOpt(d.Svcs != nil, cList(sl)), mCountsTerm(d.Use), mCountsTerm(d.Use4), mCountsTerm(d.Use6), cList(counters))
 }
 
-// ---------- oracle: the maps a rebuild from `allocated` gives, from the statement ----------
+// ---------- oracle: the maps a rebuild from the recorded allocations gives, from the statement ----------
 
-func mRebuild(a *Allocator) (mDump, []string) {
+func mRebuild(recs map[string]mAlloc) (mMaps, []string) {
 	var notes []string
-	d := mDump{Alloc: map[string]mAlloc{}, Key: map[string][2]string{}, Ports: map[string]map[string]string{}, Svcs: map[string][]string{},
+	d := mMaps{Key: map[string][2]string{}, Ports: map[string]map[Port]string{}, Svcs: map[string][]string{},
 		Use: map[string]map[string]int{}, Use4: map[string]map[string]int{}, Use6: map[string]map[string]int{}}
-	for _, s := range mSortedKeys(a.allocated) {
-		al := a.allocated[s]
-		for _, ip := range al.ips {
-			x := ip.String()
+	for _, s := range mSortedKeys(recs) {
+		al := recs[s]
+		for _, x := range al.IPs {
 			// the key stored for an address is the key of all its tenants
-			k := [2]string{al.sharing, al.backend}
-			if prev, ok := d.Key[x]; ok && prev != k {
-				notes = append(notes, fmt.Sprintf("tenants of %s have different keys %v / %v", x, prev, k))
+			if prev, ok := d.Key[x]; ok && prev != al.Key {
+				notes = append(notes, fmt.Sprintf("tenants of %s have different keys %v / %v", x, prev, al.Key))
 			}
-			d.Key[x] = k
+			d.Key[x] = al.Key
 			// a (ip, port) owner is the tenant having that port
 			if d.Ports[x] == nil {
-				d.Ports[x] = map[string]string{}
+				d.Ports[x] = map[Port]string{}
 			}
-			for _, p := range al.ports {
-				if prev, ok := d.Ports[x][p.String()]; ok && prev != s {
+			for _, p := range al.Ports {
+				if prev, ok := d.Ports[x][p]; ok && prev != s {
 					notes = append(notes, fmt.Sprintf("port %s on %s is held by %s and %s", p, x, prev, s))
 				}
-				d.Ports[x][p.String()] = s
+				d.Ports[x][p] = s
 			}
 			// the services on an address are its tenants
 			d.Svcs[x] = append(d.Svcs[x], s)
 			// counts = number of allocations recorded under that pool name holding the address
 			tw := d.Use6
-			if ip.To4() != nil {
+			if net.ParseIP(x).To4() != nil {
 				tw = d.Use4
 			}
 			for _, m := range []map[string]map[string]int{d.Use, tw} {
-				if m[al.pool] == nil {
-					m[al.pool] = map[string]int{}
+				if m[al.Pool] == nil {
+					m[al.Pool] = map[string]int{}
 				}
-				m[al.pool][x]++
+				m[al.Pool][x]++
 			}
 		}
 	}
@@ -232,36 +467,46 @@ func mRebuild(a *Allocator) (mDump, []string) {
 	return d, notes
 }
 
-// a fresh allocator into which the surviving allocations are re-assigned
-func mFresh(a *Allocator, order []string) (f *Allocator) {
+// a fresh allocator (exported API only) holding the surviving allocations;
+// nil when one of them is not admissible any more under the current pools
+func mFresh(pools []gPool, recs map[string]mAlloc, reqs map[string]*gReq, order []string) (f *Allocator) {
 	defer func() {
-		if recover() != nil { // a recorded pool name that is not configured: reported by the rebuild oracle
+		if recover() != nil {
 			f = nil
 		}
 	}()
 	f = New(func(string) {})
-	f.pools = a.pools
+	f.SetPools(gBuildPools(pools))
 	for _, s := range order {
-		al := a.allocated[s]
-		cp := &alloc{pool: al.pool, ips: append([]net.IP{}, al.ips...), ports: append([]Port{}, al.ports...), key: al.key}
-		f.assign(s, cp)
+		al, q := recs[s], reqs[s]
+		if q == nil {
+			return nil
+		}
+		var ips []net.IP
+		for _, x := range al.IPs {
+			ips = append(ips, net.ParseIP(x))
+		}
+		if f.Assign(s, gSvcObj(s, q), ips, al.Ports, al.Key[0], al.Key[1]) != nil {
+			return nil
+		}
 	}
 	return f
 }
 
-func mDiff(got, want mDump) (which, detail string) {
+// compares the maps both sides could read
+func mDiff(got, want mMaps) (which, detail string) {
 	switch {
-	case !reflect.DeepEqual(got.Key, want.Key):
+	case got.Key != nil && want.Key != nil && !reflect.DeepEqual(got.Key, want.Key):
 		return "sharingKeyForIP", fmt.Sprintf("sharingKeyForIP: have %v, rebuilt %v", got.Key, want.Key)
-	case !reflect.DeepEqual(got.Ports, want.Ports):
+	case got.Ports != nil && want.Ports != nil && !reflect.DeepEqual(got.Ports, want.Ports):
 		return "portsInUse", fmt.Sprintf("portsInUse: have %v, rebuilt %v", got.Ports, want.Ports)
-	case !reflect.DeepEqual(got.Svcs, want.Svcs):
+	case got.Svcs != nil && want.Svcs != nil && !reflect.DeepEqual(got.Svcs, want.Svcs):
 		return "servicesOnIP", fmt.Sprintf("servicesOnIP: have %v, rebuilt %v", got.Svcs, want.Svcs)
-	case !reflect.DeepEqual(got.Use, want.Use):
+	case got.Use != nil && want.Use != nil && !reflect.DeepEqual(got.Use, want.Use):
 		return "poolIPsInUse", fmt.Sprintf("poolIPsInUse: have %v, rebuilt %v", got.Use, want.Use)
-	case !reflect.DeepEqual(got.Use4, want.Use4):
+	case got.Use4 != nil && want.Use4 != nil && !reflect.DeepEqual(got.Use4, want.Use4):
 		return "poolIPV4InUse", fmt.Sprintf("poolIPV4InUse: have %v, rebuilt %v", got.Use4, want.Use4)
-	case !reflect.DeepEqual(got.Use6, want.Use6):
+	case got.Use6 != nil && want.Use6 != nil && !reflect.DeepEqual(got.Use6, want.Use6):
 		return "poolIPV6InUse", fmt.Sprintf("poolIPV6InUse: have %v, rebuilt %v", got.Use6, want.Use6)
 	}
 	return "", ""
